@@ -81,6 +81,26 @@ func (eng *Engine) resolveType(p *Pkg, s string) types.Type {
 	if s == "ref" {
 		return types.Typ[types.UnsafePointer]
 	}
+	if lb := strings.Index(s, "["); lb > 0 && strings.HasSuffix(s, "]") {
+		// instantiated generic type: Name[Arg, ...]
+		base := eng.resolveType(p, s[:lb])
+		if base == nil {
+			return nil
+		}
+		var args []types.Type
+		for _, a := range splitTopLevel(s[lb+1:len(s)-1], ',') {
+			at := eng.resolveType(p, a)
+			if at == nil {
+				return nil
+			}
+			args = append(args, at)
+		}
+		inst, err := types.Instantiate(nil, base, args, false)
+		if err != nil {
+			return nil
+		}
+		return inst
+	}
 	if t, ok := eng.curTParams[s]; ok {
 		return t
 	}
@@ -179,6 +199,12 @@ func (fc *FnCtx) specEval(env *SpecEnv, e SExpr) Val {
 		}
 		if c, ok := specConsts[e.Name]; ok {
 			return Val{c, intT}
+		}
+		if e.Name == "$recvs" {
+			if s := env.state().recvs; s != "" {
+				return Val{s, intT}
+			}
+			return Val{"0", intT}
 		}
 		if e.Name == "$sends" {
 			if s := env.state().sends; s != "" {
